@@ -5,6 +5,7 @@ package main
 // public API with freshly built types (properties C08, C09). Built with -race for the race verdict.
 
 import (
+	"runtime"
 	"bytes"
 	"encoding/json"
 	"flag"
@@ -33,6 +34,23 @@ type pcBad struct {
 
 var pcExpect = map[string]string{"get": "pcache.get", "lock": "pcache.lock", "recheck": "pcache.get", "compile": "pcache.computed",
 	"publish": "pcache.publish", "unlock": "pcache.get"}
+
+// a panic that escapes from the library inside a stress goroutine is an observation (C07 / C08), not a reason for the
+// harness to die: it is recorded and reported as a disagreement
+var pcPanicMu sync.Mutex
+var pcPanics []pcBad
+
+func pcRecover(where string) {
+	if r := recover(); r != nil {
+		buf := make([]byte, 4096)
+		buf = buf[:runtime.Stack(buf, false)]
+		pcPanicMu.Lock()
+		if len(pcPanics) < 20 {
+			pcPanics = append(pcPanics, pcBad{Kind: "panic", Det: fmt.Sprintf("panic in %s: %v\n%s", where, r, buf), Sig: "panic_escaped_" + where})
+		}
+		pcPanicMu.Unlock()
+	}
+}
 
 func pcacheMain(args []string) int {
 	fs := flag.NewFlagSet("pcache", flag.ExitOnError)
@@ -257,6 +275,7 @@ func pcacheMain(args []string) int {
 			wg.Add(1)
 			go func() {
 				defer wg.Done()
+				defer pcRecover("stress1")
 				rr := rand.New(rand.NewSource(*seed*100 + int64(g)))
 				for k := 0; k < len(types)*2; k++ {
 					i := rr.Intn(len(types))
@@ -338,6 +357,7 @@ func pcacheMain(args []string) int {
 			wg.Add(1)
 			go func() {
 				defer wg.Done()
+				defer pcRecover("first_use")
 				for k := range tys {
 					i := (k + g*len(tys)/G) % len(tys)
 					if g == G-1 && k%5 == 0 {
@@ -404,6 +424,7 @@ func pcacheMain(args []string) int {
 					wg2.Add(1)
 					go func() {
 						defer wg2.Done()
+						defer pcRecover("same_type_decode")
 						<-start
 						p := reflect.New(tys[i])
 						err := sonic.Unmarshal(variant(docs[i], g, round), p.Interface())
@@ -458,6 +479,7 @@ func pcacheMain(args []string) int {
 				wg3.Add(1)
 				go func() {
 					defer wg3.Done()
+					defer pcRecover("same_type_encode")
 					for r := 0; r < plan.rounds; r++ {
 						got, err := sonic.ConfigStd.Marshal(docsE[g])
 						if err != nil || !bytes.Equal(got, wantE[g]) {
@@ -473,6 +495,9 @@ func pcacheMain(args []string) int {
 			wg3.Wait()
 		}
 		S.Stress["concurrent_encode_sizes"] = 3
+	}
+	for _, pb := range pcPanics {
+		addBad(pb)
 	}
 	S.WallS = time.Since(t0).Seconds()
 	b, _ := json.MarshalIndent(S, "", " ")
